@@ -52,6 +52,13 @@ class Universe(object):
             for _ in range(rng.choice([1, 2])):
                 paths.append(long_stem(rng, b"p:", rng.choice(p.get("lens") or SPECIAL_LENS),
                                        rng.choice(["ascii", "bytes"])))
+        # twins: long stems sharing their whole first block (and more), differing only in a later byte
+        for x in list(paths[4:]):
+            if len(x) >= 78 and rng.random() < p.get("twins", 0.5):
+                i = rng.choice([len(x) - 2, 76, max(76, len(x) - 3)])
+                for c in rng.sample([b"0", b"z", b"A", b"~"], 2):
+                    if x[i:i + 1] != c:
+                        paths.append(x[:i] + c + x[i + 1:])
         if p.get("prefixy", 0) and rng.random() < p["prefixy"]:
             paths += [b"p:a", b"p:a\x00|", b"p:a{|", b"p:a}|"]      # byte-prefixes around '|'
             paths = [x if x.endswith(b"|") else x + b"b|" for x in paths]
@@ -153,7 +160,8 @@ class Driver(object):
         self.backend = backend
         self.u = Universe(self.rng, self.profile)
         rng = self.rng
-        self.default = rng.choice([{"k": "domain"}] * 5 + [{"k": "subdomain"}, {"k": "never"}])
+        self.default = rng.choice([{"k": "domain"}] * 5 + [{"k": "subdomain"}, {"k": "never"},
+                                   {"k": "never", "n": 1}][:7 + (rng.random() < 0.5)])
         self.rules = []
         for _ in range(rng.choice([0, 0, 1, 1, 2])):
             a = self.u.host_prefix()
@@ -171,6 +179,7 @@ class Driver(object):
         self.just_reopened = False
         self.just_ruled = None
         self.just_nested = None
+        self.after_clear = None
         self.fresh_n = 0
 
     def family_ok(self, lrus):
@@ -214,6 +223,19 @@ class Driver(object):
                 self.note(op)
                 return op
         self.just_nested = None
+        # right after a clear: pages beneath the anchors of the rules that were in force BEFORE it
+        # (what a clear that keeps stale rules or a stale default would treat differently)
+        if self.after_clear is not None and rng.random() < self.profile.get("clearprobe", 0.6):
+            anchors, self.after_clear = self.after_clear, None
+            ls = []
+            for a in anchors[:2]:
+                ls.append(a + rng.choice(u.paths[:3]) + rng.choice(u.paths[:3]))
+            ls.append(u.page())
+            if self.family_ok(ls):
+                op = {"op": "AddPages", "ls": ls, "cr": rng.random() < 0.5}
+                self.note(op)
+                return op
+        self.after_clear = None
         # persistence pattern: close and reopen right after a request that issued webentity ids,
         # then create again (what a counter kept only in RAM breaks)
         if self.backend == "file" and self.weights.get("Reopen", 0) > 0:
@@ -279,6 +301,8 @@ class Driver(object):
         elif n == "RemoveRule":
             self.ram.pop(op["anchor"], None)
         elif n in ("Reopen", "Clear", "Recreate"):
+            if n != "Reopen":
+                self.after_clear = sorted(self.ram)
             self.ram = dict(op["rules"])
             self.default = op["def"]
 
@@ -429,7 +453,7 @@ class Driver(object):
             p = rng.choice(we[w])
             to = rng.choice(ids)
             frm = rng.choice([0, w, w]) if rng.random() < 0.9 else w + 1
-            return {"op": name, "p": p, "to": to, "frm": frm}
+            return {"op": name, "p": p, "to": to, "frm": frm, "alias": rng.random() < 0.3}
         if name == "AddRule":
             return {"op": name, "anchor": u.host_prefix(), "rule": rng.choice(RULES),
                     "wr": rng.random() < 0.9}
@@ -463,14 +487,19 @@ class Driver(object):
             rules = []
             if rng.random() < 0.5:
                 rules = [(u.host_prefix(), rng.choice(RULES))]
-            return {"op": name, "def": rng.choice([self.default, {"k": "domain"}]), "rules": rules}
+            # the new default is often the EMPTY pattern (valid, falsy) while another one is in force
+            nd = rng.choice([self.default, {"k": "domain"}, {"k": "never", "n": 1}, {"k": "never", "n": 1},
+                             {"k": "subdomain"}])
+            return {"op": name, "def": nd, "rules": rules}
         if name == "Clear" and rng.random() < self.profile.get("clearkeep", 0.25):
             return {"op": "ClearKeep"}
         if name == "Clear":
             rules = []
             if rng.random() < 0.5:
                 rules = [(u.host_prefix(), rng.choice(RULES))]
-            return {"op": name, "def": rng.choice([self.default, {"k": "domain"}]), "rules": rules}
+            nd = rng.choice([self.default, {"k": "domain"}, {"k": "never", "n": 1}, {"k": "never", "n": 1},
+                             {"k": "subdomain"}])
+            return {"op": name, "def": nd, "rules": rules}
         return None
 
 
